@@ -379,9 +379,8 @@ bool Xml::Private::parseElement(Element& element)
           return false;
         continue;
       }
-      else
-        this->pos = pos;
     }
+    this->pos = pos; // not a tag: the text starts behind the previous tag
     String string;
     if(!parseText(string))
       return false;
